@@ -129,6 +129,8 @@ type hookHub struct {
 	times  map[string][]time.Time // arrival times per hook point
 }
 type gate struct {
+	spinN   int32 // >0: released goroutines spin until spinN of them have woken up (or 20 ms), to leave together
+	woken   int32
 	parked  chan []interface{} // a goroutine arrived (its args)
 	release chan struct{}
 	pred    func(args []interface{}) bool
@@ -155,6 +157,11 @@ func installHooks() {
 		if g != nil {
 			g.parked <- args
 			<-g.release
+			if n := atomic.LoadInt32(&g.spinN); n > 0 {
+				atomic.AddInt32(&g.woken, 1)
+				for t0 := time.Now(); atomic.LoadInt32(&g.woken) < n && time.Since(t0) < 20*time.Millisecond; {
+				}
+			}
 		}
 	})
 }
@@ -176,6 +183,15 @@ func (h *hookHub) reset() {
 // arm installs a gate at a hook point: the first goroutine that reaches it (and satisfies pred) parks.
 func (h *hookHub) arm(name string, pred func([]interface{}) bool) *gate {
 	g := &gate{parked: make(chan []interface{}, 64), release: make(chan struct{}), pred: pred, once: true}
+	h.mu.Lock()
+	h.gates[name] = g
+	h.mu.Unlock()
+	return g
+}
+
+// armAll: every goroutine that reaches the point parks until the gate is opened.
+func (h *hookHub) armAll(name string, pred func([]interface{}) bool) *gate {
+	g := &gate{parked: make(chan []interface{}, 256), release: make(chan struct{}), pred: pred}
 	h.mu.Lock()
 	h.gates[name] = g
 	h.mu.Unlock()
